@@ -323,6 +323,10 @@ func (repo *Repository) ProcessHeader(ctx context.Context, header *wire.BlockHea
 	repo.Lock()
 	defer repo.Unlock()
 
+	if !validBits(header.Bits) {
+		return errors.Wrapf(ErrInvalidTarget, "bits 0x%08x", header.Bits)
+	}
+
 	if !repo.disableDifficulty && !header.WorkIsValid() {
 		return ErrNotEnoughWork
 	}
@@ -504,6 +508,23 @@ func (repo *Repository) ProcessHeader(ctx context.Context, header *wire.BlockHea
 	}
 
 	return nil
+}
+
+// validBits returns true if the compact "bits" value encodes a positive target of no more than
+// 256 bits that the proof of work functions can decode.
+func validBits(bits uint32) bool {
+	exponent := bits >> 24
+	mantissa := bits & 0x007fffff
+	if bits&0x00800000 != 0 || mantissa == 0 {
+		return false // negative or zero
+	}
+	if exponent < 3 {
+		return false // less than three bytes
+	}
+	if exponent > 34 || (mantissa > 0xff && exponent > 33) || (mantissa > 0xffff && exponent > 32) {
+		return false // more than 256 bits
+	}
+	return true
 }
 
 func (repo *Repository) sendBranchUpdate(branch, previousLongest *Branch) error {
